@@ -16,9 +16,11 @@ theorem rollback_footprint (cfg : Cfg) (w : World) :
     Extends (NamesIn (w.infos.map Prod.fst)) w (rollback cfg w).1 :=
   BackupFS.rollback_footprint cfg w
 
-/-- T13.2 the clean-up of both filesystems uses `Remove`, never `RemoveAll`, except for the two
-type-mismatch repairs of `restoreFile`/`restoreSymlink` on the *base* side: no `removeall` is ever
-issued on the backup filesystem by the clean-up phase.  Stated on the clean-up function. -/
+/-- T13.2 the clean-up of both filesystems uses `Remove`, never `RemoveAll` — the one `RemoveAll`
+left in Rollback is `restoreFile`'s repair, on the *base* side, of a backup copy that is not a
+regular file (`restoreFile`/`restoreSymlink` take a directory in the way with `Remove`): no
+`removeall` is ever issued on the backup filesystem by the clean-up phase.  Stated on the clean-up
+function. -/
 theorem cleanup_uses_remove_only (cfg : Cfg) (ps : List Path) (w : World) :
     Extends (fun e => e.sig.method ≠ "removeall") w (removeBackupPaths cfg ps w).1 := by
   have : Logs (removeBackupPaths cfg ps) (fun e => e.sig.method ≠ "removeall") := by
@@ -40,49 +42,73 @@ theorem cleanup_uses_remove_only (cfg : Cfg) (ps : List Path) (w : World) :
 /-!
 ### C13 (state level) — Rollback stays within the transaction's footprint
 
-`Props/C13.lean` shows that every primitive call of Rollback *names* a tracked path.  This file
+`rollback_footprint` shows that every primitive call of Rollback *names* a tracked path.  This part
 shows what that means for the two trees: for the OS model behind two `PrefixFS` layers, for EVERY
 well-formed link-free disk — no transaction invariant is assumed, so the two trees may have been
 modified arbitrarily by other actors since the operations ran — and for EVERY fault plan, whatever
 Rollback returns:
 
 * base: an entry `(kp k, oi)` of the tracked map (`k` not the root) lets Rollback change only
-  `k` itself, the keys below `k` when `k` is tracked as a regular file (`restoreFile` calls
-  `RemoveAll` when something that is not a regular file took the file's place), and the prefixes of
-  `k` when `k` is tracked as a directory (`MkdirAll` recreates missing ancestors) — `Touches`.
-  Every other entry of the base is left exactly as it is (directory timestamps aside);
+  `k` itself and the prefixes of `k` when `k` is tracked as a directory (`MkdirAll` recreates missing
+  ancestors) — plus, in ONE situation, the keys below `k`: `k` is tracked as a regular file and the
+  backup does not hold a regular file at `k` (`restoreFile` keeps its `RemoveAll` for a backup copy
+  that is not a regular file; BackupFS itself never produces such a copy, somebody must have tampered
+  with the backup directory) — `Touches`.  Every other entry of the base is left exactly as it is
+  (directory timestamps aside);
 * regular files of the base are left byte for byte, with all their metadata, unless the file's key
-  is tracked or lies below a key tracked as a regular file — `TouchesFile`;
+  is tracked (or, again, lies below a key tracked as a regular file whose backup copy is not a
+  regular file) — `TouchesFile`;
 * backup: only keys tracked with an original are changed (`Remove` of that key, never
   `RemoveAll`): foreign content inside backup directories stays.
 
-The proof (Lemmas/Footprint.lean) is frame reasoning over the abstract contract `Sim` and uses only
-its unconditional `*_frame` / `pure_*` laws.  Hypotheses: tracked paths are absolute cleaned paths,
-the root is not tracked as "did not exist", no tracked original is a symlink (link-free fragment:
-the contract has no law for `Symlink`).
+In particular (this is what the fix of `restoreFile`/`restoreSymlink` bought): when an original
+regular file was removed in the transaction and a DIRECTORY now sits at its path, Rollback takes
+that directory away with `Remove`, not `RemoveAll`.  Whatever the transaction created below it is
+tracked as "did not exist" and is removed one by one, deepest first; whatever ANOTHER ACTOR put
+there is not in the footprint and survives (the `Remove` of the non-empty directory fails and
+Rollback reports the error) — `foreign_entry_survives`, `unnamed_file_keeps_content`, and the
+kernel-checked run `foreign_file_below_replaced_file_survives`.
+
+The proof (Lemmas/Footprint.lean) is frame reasoning over the abstract contract `Sim`: its
+unconditional `*_frame` / `pure_*` laws, and for the `Remove`-or-`RemoveAll` decision of
+`restoreFile` the two laws that say what a handle opened on the backup copy reports (`open_handle`,
+`hstat_some`).  Hypotheses: tracked paths are absolute cleaned paths, the root is not tracked as
+"did not exist", no tracked original is a symlink (link-free fragment: the contract has no law for
+`Symlink`).
 
 Remark on the coarse form (`rollback_leaves_unrelated_keys_alone`): "unrelated to every tracked
 key" must except the root — every operation tracks the root, which is a prefix of every key — and
 even then says nothing about a foreign entry inside a tracked directory; the fine form does.
 -/
 
+/-- the backup copy of key `k` on the disk is a regular file -/
+def CopyIsFile (kk : Key) (m : MFS) (k : Key) : Prop := ∃ c mt, m.get (kk ++ k) = some (.file c mt)
+
+theorem isFileAt_backup_iff {bk kk : Key} {m : MFS} {k : Key} :
+    (osView bk kk .backup m).isFileAt k ↔ CopyIsFile kk m k := by
+  constructor
+  · rintro ⟨c, mt, h⟩
+    obtain ⟨n0, h0, he⟩ := osView_some h
+    rw [eraseMt_file.mp he] at h0
+    exact ⟨c, mt, h0⟩
+  · rintro ⟨c, mt, h⟩
+    refine ⟨c, mt, ?_⟩
+    rw [osView_eq]
+    show (m.get (kk ++ k)).map eraseMt = _
+    rw [h]; rfl
 
 /-- T13.3 (main) Rollback changes the base only inside the footprint of the tracked map, regular
 files only inside the narrower file footprint, and the backup only at keys tracked with an
 original — any well-formed disk, any fault plan.
 
-The one way Rollback reaches base entries that no operation named and that are not missing
-ancestors is the second disjunct of `Touches`/`TouchesFile` (case (b)): a key `k` tracked as a
-regular FILE whose place is now held by something that is not a regular file (the transaction, or
-another actor, put a directory there).  `restoreFile` then issues `RemoveAll k` before writing the
-file back (fs_utils.go, `!fi.Mode().IsRegular() || (baseExists && !baseFi.Mode().IsRegular())`):
-restoring the original file necessarily removes whatever lies below `k`, including entries another
-actor created inside that directory.  This is a deliberate repair and no violation of the property,
-whose second clause speaks of entries created inside PRE-EXISTING directories (such a directory is
-not pre-existing: originally `k` was a file).  By contrast a key tracked as absent is removed with
-`Remove`, never `RemoveAll`: foreign entries inside a directory the transaction created survive
-(the `Remove` fails and Rollback reports the error), and a key tracked as a directory never
-affects what lies below it. -/
+`Touches vb k oi j` (`vb` the backup view when Rollback starts) is: `j = k`; or `k` is tracked as a
+directory and `j` is one of its prefixes; or `k` is tracked as a regular FILE, the backup holds no
+regular file at `k`, and `j` lies below `k`.  The last disjunct is the one `RemoveAll` left in
+`restoreFile` (fs_utils.go, `if !fi.Mode().IsRegular()` on the BACKUP copy's FileInfo); when the
+backup copy is a regular file — always, unless somebody tampered with the backup directory — the
+code makes room with `Remove` (`else if baseExists && !baseFi.Mode().IsRegular()`), which cannot
+reach below `k`.  A key tracked as absent is removed with `Remove` too, and a key tracked as a
+directory never affects what lies below it. -/
 theorem rollback_leaves_unrelated_entries_alone (bk kk : Key) (hbk : PKey bk) (hkk : PKey kk)
     (hne1 : bk ≠ []) (hne2 : kk ≠ []) (hd1 : ¬ bk <+: kk) (hd2 : ¬ kk <+: bk)
     (w : World) (hg : OSGood bk kk w.fs)
@@ -91,10 +117,10 @@ theorem rollback_leaves_unrelated_entries_alone (bk kk : Key) (hbk : PKey bk) (h
     (hnolink : ∀ p i, (p, some i) ∈ w.infos → i.kind ≠ .link) :
     let w' := (rollback (osCfg bk kk) w).1
     OSGood bk kk w'.fs ∧
-    (∀ j, (∀ k oi, (kp k, oi) ∈ w.infos → PKey k → k ≠ [] → ¬ Touches k oi j) →
+    (∀ j, (∀ k oi, (kp k, oi) ∈ w.infos → PKey k → k ≠ [] → ¬ Touches (osView bk kk .backup w.fs) k oi j) →
       (w'.fs.get (bk ++ j)).map eraseMt = (w.fs.get (bk ++ j)).map eraseMt) ∧
     (∀ j c mt, w.fs.get (bk ++ j) = some (.file c mt) →
-      (∀ k oi, (kp k, oi) ∈ w.infos → PKey k → k ≠ [] → ¬ TouchesFile k oi j) →
+      (∀ k oi, (kp k, oi) ∈ w.infos → PKey k → k ≠ [] → ¬ TouchesFile (osView bk kk .backup w.fs) k oi j) →
       w'.fs.get (bk ++ j) = some (.file c mt)) ∧
     (∀ j, (j = [] ∨ ∀ i, (kp j, some i) ∉ w.infos) →
       (w'.fs.get (kk ++ j)).map eraseMt = (w.fs.get (kk ++ j)).map eraseMt) := by
@@ -113,9 +139,11 @@ theorem rollback_leaves_unrelated_entries_alone (bk kk : Key) (hbk : PKey bk) (h
   exact h0
 
 /-- T13.4 "entries with fresh names that other actors created inside pre-existing directories
-survive": an entry `j` of the base such that no operation named `j` or anything below it, and no
-ancestor of `j` is tracked as a regular file, is left as it is (with everything it contains that is
-equally fresh). -/
+survive" — and inside directories the transaction created, and inside a directory that took the
+place of a removed original file: an entry `j` of the base such that no operation named `j` or
+anything below it is left as it is (with everything it contains that is equally fresh), provided
+every key ABOVE `j` that is tracked as a regular file still has a regular file as its backup copy
+(`hcopy`; no condition at all when no such key lies above `j`). -/
 theorem foreign_entry_survives (bk kk : Key) (hbk : PKey bk) (hkk : PKey kk)
     (hne1 : bk ≠ []) (hne2 : kk ≠ []) (hd1 : ¬ bk <+: kk) (hd2 : ¬ kk <+: bk)
     (w : World) (hg : OSGood bk kk w.fs)
@@ -124,18 +152,19 @@ theorem foreign_entry_survives (bk kk : Key) (hbk : PKey bk) (hkk : PKey kk)
     (hnolink : ∀ p i, (p, some i) ∈ w.infos → i.kind ≠ .link)
     (j : Key)
     (hfresh : ∀ k oi, (kp k, oi) ∈ w.infos → PKey k → ¬ j <+: k)
-    (hnofile : ∀ k i, (kp k, some i) ∈ w.infos → PKey k → i.kind = .file → ¬ k <+: j) :
+    (hcopy : ∀ k i, (kp k, some i) ∈ w.infos → PKey k → i.kind = .file → k <+: j → CopyIsFile kk w.fs k) :
     ((rollback (osCfg bk kk) w).1.fs.get (bk ++ j)).map eraseMt = (w.fs.get (bk ++ j)).map eraseMt := by
   refine (rollback_leaves_unrelated_entries_alone bk kk hbk hkk hne1 hne2 hd1 hd2 w hg hkeys hroot hnolink).2.1 j ?_
   intro k oi hm hk _ ht
-  rcases ht with rfl | ⟨i, rfl, hkind, hpre⟩ | ⟨_, _, _, hpre⟩
+  rcases ht with rfl | ⟨i, rfl, hkind, hnf, hpre⟩ | ⟨_, _, _, hpre⟩
   · exact hfresh _ oi hm hk (List.prefix_refl _)
-  · exact hnofile k i hm hk hkind hpre
+  · exact hnf (isFileAt_backup_iff.mpr (hcopy k i hm hk hkind hpre))
   · exact hfresh k oi hm hk hpre
 
 /-- T13.5 "files never named by an operation keep whatever content they have": a regular file
-whose key is not tracked, and which does not lie below a key tracked as a regular file, keeps its
-content, mode, owner and modification time. -/
+whose key is not tracked keeps its content, mode, owner and modification time — wherever it lies,
+also below the path of a removed original file where a directory now sits — provided every key
+above it that is tracked as a regular file still has a regular file as its backup copy. -/
 theorem unnamed_file_keeps_content (bk kk : Key) (hbk : PKey bk) (hkk : PKey kk)
     (hne1 : bk ≠ []) (hne2 : kk ≠ []) (hd1 : ¬ bk <+: kk) (hd2 : ¬ kk <+: bk)
     (w : World) (hg : OSGood bk kk w.fs)
@@ -144,14 +173,49 @@ theorem unnamed_file_keeps_content (bk kk : Key) (hbk : PKey bk) (hkk : PKey kk)
     (hnolink : ∀ p i, (p, some i) ∈ w.infos → i.kind ≠ .link)
     (j : Key) (c : String) (mt : Meta) (hfile : w.fs.get (bk ++ j) = some (.file c mt))
     (hunnamed : ∀ oi, (kp j, oi) ∉ w.infos)
-    (hnofile : ∀ k i, (kp k, some i) ∈ w.infos → PKey k → i.kind = .file → ¬ k <+: j) :
+    (hcopy : ∀ k i, (kp k, some i) ∈ w.infos → PKey k → i.kind = .file → k <+: j → CopyIsFile kk w.fs k) :
     (rollback (osCfg bk kk) w).1.fs.get (bk ++ j) = some (.file c mt) := by
   refine (rollback_leaves_unrelated_entries_alone bk kk hbk hkk hne1 hne2 hd1 hd2 w hg hkeys hroot hnolink).2.2.1
     j c mt hfile ?_
   intro k oi hm hk _ ht
-  rcases ht with rfl | ⟨i, rfl, hkind, hpre⟩
+  rcases ht with rfl | ⟨i, rfl, hkind, hnf, hpre⟩
   · exact hunnamed oi hm
-  · exact hnofile k i hm hk hkind hpre
+  · exact hnf (isFileAt_backup_iff.mpr (hcopy k i hm hk hkind hpre))
+
+/-- T13.5' the footprint when nobody tampered with the backup copies (every key tracked as a regular
+file has a regular file as its backup copy — part of the transaction invariant): the base changes at
+`j` only if `j` is tracked or is an ancestor of a key tracked as a directory; a regular file changes
+only if its own key is tracked.  No exception is left. -/
+theorem rollback_changes_named_entries_only (bk kk : Key) (hbk : PKey bk) (hkk : PKey kk)
+    (hne1 : bk ≠ []) (hne2 : kk ≠ []) (hd1 : ¬ bk <+: kk) (hd2 : ¬ kk <+: bk)
+    (w : World) (hg : OSGood bk kk w.fs)
+    (hkeys : ∀ p oi, (p, oi) ∈ w.infos → ∃ k, PKey k ∧ p = kp k)
+    (hroot : (kp [], none) ∉ w.infos)
+    (hnolink : ∀ p i, (p, some i) ∈ w.infos → i.kind ≠ .link)
+    (hcopies : ∀ k i, (kp k, some i) ∈ w.infos → PKey k → k ≠ [] → i.kind = .file → CopyIsFile kk w.fs k) :
+    let w' := (rollback (osCfg bk kk) w).1
+    (∀ j, (∀ k oi, (kp k, oi) ∈ w.infos → PKey k → k ≠ [] →
+        j ≠ k ∧ ∀ i, oi = some i → i.kind = .dir → ¬ j <+: k) →
+      (w'.fs.get (bk ++ j)).map eraseMt = (w.fs.get (bk ++ j)).map eraseMt) ∧
+    (∀ j c mt, w.fs.get (bk ++ j) = some (.file c mt) → (∀ oi, (kp j, oi) ∉ w.infos) →
+      w'.fs.get (bk ++ j) = some (.file c mt)) := by
+  obtain ⟨_, hb, hf, _⟩ :=
+    rollback_leaves_unrelated_entries_alone bk kk hbk hkk hne1 hne2 hd1 hd2 w hg hkeys hroot hnolink
+  constructor
+  · intro j hj
+    apply hb j
+    intro k oi hm hk hne ht
+    obtain ⟨h1, h2⟩ := hj k oi hm hk hne
+    rcases ht with e | ⟨i, rfl, hkind, hnf, _⟩ | ⟨i, rfl, hkind, hpre⟩
+    · exact h1 e
+    · exact hnf (isFileAt_backup_iff.mpr (hcopies k i hm hk hne hkind))
+    · exact h2 i rfl hkind hpre
+  · intro j c mt hfile hun
+    apply hf j c mt hfile
+    intro k oi hm hk hne ht
+    rcases ht with rfl | ⟨i, rfl, hkind, hnf, _⟩
+    · exact hun oi hm
+    · exact hnf (isFileAt_backup_iff.mpr (hcopies k i hm hk hne hkind))
 
 /-- T13.6 "in the backup filesystem Rollback removes only what BackupFS put there": a backup
 entry whose key is not tracked with an original — in particular foreign content inside backup
@@ -214,10 +278,12 @@ example :
     (kp [], none) ∉ exWorld.infos ∧
     (∀ p i, (p, some i) ∈ exWorld.infos → i.kind ≠ .link) ∧
     (∀ k oi, (kp k, oi) ∈ exWorld.infos → PKey k → ¬ [['d'], ['x']] <+: k) ∧
-    (∀ k i, (kp k, some i) ∈ exWorld.infos → PKey k → i.kind = .file → ¬ k <+: [['d'], ['x']]) ∧
+    (∀ k i, (kp k, some i) ∈ exWorld.infos → PKey k → i.kind = .file → k <+: [['d'], ['x']] →
+      CopyIsFile [['k']] exWorld.fs k) ∧
     exWorld.fs.get ([['b']] ++ [['f']]) = some (.file "hello" { exMeta with mode := 0o644 }) ∧
     (∀ oi, (kp [['f']], oi) ∉ exWorld.infos) ∧
-    (∀ k i, (kp k, some i) ∈ exWorld.infos → PKey k → i.kind = .file → ¬ k <+: [['f']]) ∧
+    (∀ k i, (kp k, some i) ∈ exWorld.infos → PKey k → i.kind = .file → k <+: [['f']] →
+      CopyIsFile [['k']] exWorld.fs k) ∧
     (∀ i, (kp [['d'], ['y']], some i) ∉ exWorld.infos) := by
   refine ⟨osGood_example, ?_, ?_, ?_, ?_, ?_, rfl, ?_, ?_, ?_⟩
   · intro p oi hm
@@ -249,5 +315,168 @@ example :
     · cases h
   · intro i hm
     rcases exWorld_mem hm (by decide) with ⟨h, _⟩ | ⟨h, _⟩ | ⟨h, _⟩ <;> exact absurd h (by decide)
+
+/-! ### the scenario of the fix: a directory with foreign content where an original file was
+
+Original file `/c`.  The transaction removes `/c` and calls `MkdirAll("/c/d")`; another actor puts
+a file `/c/d/x` there, directly on the disk (it is not tracked).  Rollback must not delete it. -/
+
+def exFileInfo : Info := { name := [], size := 4, kind := .file, perm := 0o644, mtime := .old 0, uid := 0, gid := 0 }
+
+/-- what the foreign actor wrote -/
+def foreignNode : Node := .file "foreign" { mode := 0o600, uid := 7, gid := 7, mtime := .old 5 }
+
+/-- the disk of that scenario when Rollback starts, written out: `/b/c` is a directory now, with
+`/b/c/d` (created by the transaction) and the foreign `/b/c/d/x`; the backup holds the copy `/k/c` -/
+def rfDisk : MFS where
+  get := fun k =>
+    if k = [] then some (.dir exMeta)
+    else if k = [['b']] then some (.dir exMeta)
+    else if k = [['k']] then some (.dir exMeta)
+    else if k = [['b'], ['c']] then some (.dir exMeta)
+    else if k = [['b'], ['c'], ['d']] then some (.dir exMeta)
+    else if k = [['b'], ['c'], ['d'], ['x']] then some foreignNode
+    else if k = [['k'], ['c']] then some (.file "orig" { exMeta with mode := 0o644 })
+    else none
+  dom := [[], [['b']], [['k']], [['b'], ['c']], [['b'], ['c'], ['d']], [['b'], ['c'], ['d'], ['x']], [['k'], ['c']]]
+  umask := 0o022
+
+theorem rfDisk_live {k : Key} {n : Node} (h : rfDisk.get k = some n) :
+    (k = [] ∧ n = .dir exMeta) ∨ (k = [['b']] ∧ n = .dir exMeta) ∨ (k = [['k']] ∧ n = .dir exMeta) ∨
+    (k = [['b'], ['c']] ∧ n = .dir exMeta) ∨ (k = [['b'], ['c'], ['d']] ∧ n = .dir exMeta) ∨
+    (k = [['b'], ['c'], ['d'], ['x']] ∧ n = foreignNode) ∨
+    (k = [['k'], ['c']] ∧ n = .file "orig" { exMeta with mode := 0o644 }) := by
+  simp only [rfDisk] at h
+  split at h
+  · cases h; exact Or.inl ⟨‹_›, rfl⟩
+  split at h
+  · cases h; exact Or.inr (Or.inl ⟨‹_›, rfl⟩)
+  split at h
+  · cases h; exact Or.inr (Or.inr (Or.inl ⟨‹_›, rfl⟩))
+  split at h
+  · cases h; exact Or.inr (Or.inr (Or.inr (Or.inl ⟨‹_›, rfl⟩)))
+  split at h
+  · cases h; exact Or.inr (Or.inr (Or.inr (Or.inr (Or.inl ⟨‹_›, rfl⟩))))
+  split at h
+  · cases h; exact Or.inr (Or.inr (Or.inr (Or.inr (Or.inr (Or.inl ⟨‹_›, rfl⟩)))))
+  split at h
+  · cases h; exact Or.inr (Or.inr (Or.inr (Or.inr (Or.inr (Or.inr ⟨‹_›, rfl⟩)))))
+  · cases h
+
+theorem osGood_rfDisk : OSGood [['b']] [['k']] rfDisk := by
+  refine ⟨⟨_, rfl⟩, ?_, ?_, ?_, ?_, ⟨_, rfl⟩, ⟨_, rfl⟩, ?_⟩
+  · intro k n h
+    rcases rfDisk_live h with ⟨rfl, _⟩ | ⟨rfl, _⟩ | ⟨rfl, _⟩ | ⟨rfl, _⟩ | ⟨rfl, _⟩ | ⟨rfl, _⟩ | ⟨rfl, _⟩ <;> decide
+  · intro k n h
+    rcases rfDisk_live h with ⟨rfl, _⟩ | ⟨rfl, _⟩ | ⟨rfl, _⟩ | ⟨rfl, _⟩ | ⟨rfl, _⟩ | ⟨rfl, _⟩ | ⟨rfl, _⟩ <;> decide
+  · intro k n h
+    rcases rfDisk_live h with ⟨_, rfl⟩ | ⟨_, rfl⟩ | ⟨_, rfl⟩ | ⟨_, rfl⟩ | ⟨_, rfl⟩ | ⟨_, rfl⟩ | ⟨_, rfl⟩ <;> decide
+  · intro k n h hne
+    rcases rfDisk_live h with ⟨rfl, _⟩ | ⟨rfl, _⟩ | ⟨rfl, _⟩ | ⟨rfl, _⟩ | ⟨rfl, _⟩ | ⟨rfl, _⟩ | ⟨rfl, _⟩
+    · exact absurd rfl hne
+    all_goals exact ⟨_, rfl⟩
+  · intro k t mt _ h
+    rcases rfDisk_live h with ⟨_, e⟩ | ⟨_, e⟩ | ⟨_, e⟩ | ⟨_, e⟩ | ⟨_, e⟩ | ⟨_, e⟩ | ⟨_, e⟩ <;> cases e
+
+/-- the world of the scenario when Rollback starts: `/` and `/c` tracked with their originals,
+`/c/d` tracked as "did not exist"; `/c/d/x` is not tracked.  One `Chtimes` is planned to fail, to
+show that the fault plan is arbitrary. -/
+def rfWorld : World :=
+  { fs := rfDisk,
+    infos := [(kp [], some exDirInfo), (kp [['c']], some exFileInfo), (kp [['c'], ['d']], none)],
+    faults := [{ sig := { side := .base, method := "chtimes", args := [kp [['c']]] }, occ := 0 }] }
+
+theorem rfWorld_mem {k : Key} {oi : Option Info} (hm : (kp k, oi) ∈ rfWorld.infos) (hk : PKey k) :
+    (k = [] ∧ oi = some exDirInfo) ∨ (k = [['c']] ∧ oi = some exFileInfo) ∨ (k = [['c'], ['d']] ∧ oi = none) := by
+  simp only [rfWorld, List.mem_cons, Prod.mk.injEq, List.not_mem_nil, or_false] at hm
+  rcases hm with ⟨h, rfl⟩ | ⟨h, rfl⟩ | ⟨h, rfl⟩
+  · exact Or.inl ⟨kp_inj hk (by decide) h, rfl⟩
+  · exact Or.inr (Or.inl ⟨kp_inj hk (by decide) h, rfl⟩)
+  · exact Or.inr (Or.inr ⟨kp_inj hk (by decide) h, rfl⟩)
+
+/-- after Rollback `/c/d/x` is byte for byte, with mode, owner and time, what the other actor wrote -/
+def ForeignSurvives (w : World) : Prop :=
+  (rollback (osCfg [['b']] [['k']]) w).1.fs.get [['b'], ['c'], ['d'], ['x']] = some foreignNode
+
+/-- (the world is kept a variable so that no defeq check ever runs the model on a closed term) -/
+theorem foreignSurvives_of_eq (w : World) (hw : w = rfWorld) : ForeignSurvives w := by
+  have hkeys : ∀ p oi, (p, oi) ∈ w.infos → ∃ k, PKey k ∧ p = kp k := by
+    rw [hw]
+    intro p oi hm
+    simp only [rfWorld, List.mem_cons, Prod.mk.injEq, List.not_mem_nil, or_false] at hm
+    rcases hm with ⟨rfl, _⟩ | ⟨rfl, _⟩ | ⟨rfl, _⟩
+    · exact ⟨[], by decide, rfl⟩
+    · exact ⟨[['c']], by decide, rfl⟩
+    · exact ⟨[['c'], ['d']], by decide, rfl⟩
+  have hroot : (kp [], none) ∉ w.infos := by rw [hw]; decide
+  have hnolink : ∀ p i, (p, some i) ∈ w.infos → i.kind ≠ .link := by
+    rw [hw]
+    intro p i hm
+    simp only [rfWorld, List.mem_cons, Prod.mk.injEq, List.not_mem_nil, or_false] at hm
+    rcases hm with ⟨_, h⟩ | ⟨_, h⟩ | ⟨_, h⟩
+    · cases h; decide
+    · cases h; decide
+    · cases h
+  have hg : OSGood [['b']] [['k']] w.fs := by rw [hw]; exact osGood_rfDisk
+  have hfile : w.fs.get ([['b']] ++ [['c'], ['d'], ['x']]) =
+      some (.file "foreign" { mode := 0o600, uid := 7, gid := 7, mtime := .old 5 }) := by rw [hw]; rfl
+  have hun : ∀ oi, (kp [['c'], ['d'], ['x']], oi) ∉ w.infos := by
+    rw [hw]
+    intro oi hm
+    rcases rfWorld_mem hm (by decide) with ⟨h, _⟩ | ⟨h, _⟩ | ⟨h, _⟩ <;> exact absurd h (by decide)
+  have hcopy : ∀ k i, (kp k, some i) ∈ w.infos → PKey k → i.kind = .file → k <+: [['c'], ['d'], ['x']] →
+      CopyIsFile [['k']] w.fs k := by
+    rw [hw]
+    intro k i hm hk hkind _
+    rcases rfWorld_mem hm hk with ⟨_, h⟩ | ⟨rfl, _⟩ | ⟨_, h⟩
+    · cases h; cases hkind
+    · exact ⟨_, _, rfl⟩
+    · cases h
+  exact unnamed_file_keeps_content [['b']] [['k']] (by decide) (by decide) (by decide) (by decide) (by decide)
+    (by decide) w hg hkeys hroot hnolink [['c'], ['d'], ['x']] _ _ hfile hun hcopy
+
+/-- T13.4/T13.5 apply to the foreign file BELOW THE REPLACED FILE PATH (non-vacuity of the
+strengthened statements: `/c` is tracked as a regular file, lies above `/c/d/x`, and its backup copy
+is a regular file): whatever the fault plan does (here it refuses a `Chtimes`), `/c/d/x` is byte for
+byte what the other actor wrote after Rollback. -/
+theorem foreign_file_below_replaced_file_survives_any_plan : ForeignSurvives rfWorld :=
+  foreignSurvives_of_eq rfWorld rfl
+
+/-- the base disk of the scenario before the transaction: `/b/c` is a regular file -/
+def rfDisk0 : MFS where
+  get := fun k =>
+    if k = [] then some (.dir exMeta)
+    else if k = [['b']] then some (.dir exMeta)
+    else if k = [['k']] then some (.dir exMeta)
+    else if k = [['b'], ['c']] then some (.file "orig" { exMeta with mode := 0o644 })
+    else none
+  dom := [[], [['b']], [['k']], [['b'], ['c']]]
+  umask := 0o022
+
+set_option maxRecDepth 100000 in
+/-- **The scenario, run from the start in the kernel** (`decide`): original file `/c`; the
+transaction removes `/c` and calls `MkdirAll("/c/d")` — `/`, `/c`, `/c/d` are tracked, the backup
+holds the copy of `/c`; a foreign file `/c/d/x` is put on the disk directly (not tracked).
+Rollback removes nothing below `/c` that it did not create: `Remove("/c/d")` fails (not empty),
+`Remove("/c")` fails, Rollback REPORTS THE ERROR (`.ok true`), and `/c/d/x` survives with its
+content, mode, owner and time.  (With `RemoveAll` in `restoreFile` the file was deleted.)
+Observation, unchanged by the fix: the clean-up phases still run after the failed restore and delete
+the backup copy of `/c`. -/
+theorem foreign_file_below_replaced_file_survives :
+    let cfg := osCfg [['b']] [['k']]
+    let w1 := runOps cfg { fs := rfDisk0 } [.remove "/c".toList, .mkdirAll "/c/d".toList 0o755]
+    let w2 : World := { w1 with fs := w1.fs.set [['b'], ['c'], ['d'], ['x']] (some foreignNode) }
+    let r := rollback cfg w2
+    rfDisk0.get [['b'], ['c']] = some (.file "orig" { exMeta with mode := 0o644 }) ∧
+    w2.infos.map Prod.fst = ["/".toList, "/c".toList, "/c/d".toList] ∧
+    (w2.fs.get [['b'], ['c']]).map Node.kind = some .dir ∧
+    (w2.fs.get [['b'], ['c'], ['d']]).map Node.kind = some .dir ∧
+    w2.fs.get [['k'], ['c']] = some (.file "orig" { exMeta with mode := 0o644 }) ∧
+    r.2 = .ok true ∧
+    r.1.fs.get [['b'], ['c'], ['d'], ['x']] = some foreignNode ∧
+    (r.1.fs.get [['b'], ['c'], ['d']]).map Node.kind = some .dir ∧
+    r.1.fs.get [['k'], ['c']] = none := by
+  refine ⟨by decide +kernel, by decide +kernel, by decide +kernel, by decide +kernel, by decide +kernel,
+    by decide +kernel, by decide +kernel, by decide +kernel, by decide +kernel⟩
 
 end Props.C13
